@@ -35,7 +35,7 @@ def step_strategy(restart_w=1, ns_w=2):
         (4, st.builds(lambda b, d: {"op": "append", "box": b, "date": d}, nm, st.integers(0, 4))),
         (3, st.builds(lambda b, ss, top: {"op": "expunge", "box": b, "set": ss, "top": top}, nm, sset, st.booleans())),
         (2, st.builds(lambda b, k: {"op": "expunge", "box": b, "set": [], "top": False, "low": k}, nm, st.integers(1, 3))),
-        (2, st.builds(lambda b, ss, d, mv: {"op": "copy", "box": b, "set": ss, "dst": d, "move": mv}, nm, sset, nm, st.booleans())),
+        (2, st.builds(lambda b, ss, d, mv, ab: {"op": "copy", "box": b, "set": ss, "dst": d, "move": mv, "absent": ab == 0}, nm, sset, nm, st.booleans(), st.integers(0, 3))),
         (2, st.builds(lambda b, k: {"op": "deliver", "box": b, "n": k}, nm, st.integers(0, 2))),
         (3, st.builds(lambda t: {"op": "advance", "t": t}, st.integers(0, 2))),
         (ns_w, st.builds(lambda b: {"op": "create", "box": b}, nm)),
@@ -198,6 +198,25 @@ class Fam:
                     m = _re.search(rb"X-VF-Tag:\s*(\S+)", bytes(h), _re.I) if h is not None else None
                     if m and "UID" in items:
                         src[int(items["UID"])] = m.group(1).decode()
+                if s.get("absent"):
+                    # a UID set that names no message (seeded/C02-3): nothing is copied, so no COPYUID may
+                    # claim destination uids
+                    ru = await self.cmd(b"UID SEARCH ALL")
+                    have = set()
+                    for x in ru.untagged("SEARCH"):
+                        have.update(wire.search_nums(x))
+                    gone = max(have, default=0) + 3
+                    r = await self.cmd((b"UID MOVE " if s.get("move") else b"UID COPY ") + str(gone).encode() + b" " + enc(dst))
+                    self.events.add("uid-copy-absent")
+                    raw = bytes(r.raw)
+                    mm = _re.search(rb"\[COPYUID ([^\]]*)\]", raw)
+                    if r.ok and mm and _re.search(rb"\d+\s+\S*\s*\d", mm.group(1)):
+                        toks = mm.group(1).split()
+                        if len(toks) >= 2 and any(ch.isdigit() for t_ in toks[1:] for ch in t_.decode("latin-1")):
+                            self.v("C02.copyuid.phantom", f"UID {'MOVE' if s.get('move') else 'COPY'} {gone} (no such message) to {dst} answered {raw[-80:]!r}: COPYUID names uids although nothing was copied")
+                    if self.cmd_s.alive:
+                        await self.cmd(b"UNSELECT")
+                    return
                 r = await self.cmd((b"MOVE " if s.get("move") else b"COPY ") + text + b" " + enc(dst))
                 code = None
                 if r.ok:
